@@ -55,10 +55,15 @@ fn scenario_two_in_flight(rng: &mut Rng, id: String, rep: &mut Report, props: &[
     w.edit(0, *rng.pick(&["o", "a", "fo"]));
     let n0 = rng.range(0, 40);
     w.push_via(k, n0, true);
-    let mut h1 = HeldWriter::start(&mut w, k);
-    let n1 = rng.range(600, 3000);
+    // single items or whole batches (more than 64 unpublished indices around one published item)
+    let batches = rng.chance(1, 2);
+    let mut h1 = if batches { HeldWriter::start_batch(&mut w, k, *rng.pick(&[33u32, 40, 70]), 0) } else { HeldWriter::start(&mut w, k) };
+    let n1 = if batches { rng.range(1, 3) } else { rng.range(600, 3000) };
     w.push_via(k, n1, true);
-    let mut h2 = HeldWriter::start(&mut w, k);
+    let mut h2 = if batches { HeldWriter::start_batch(&mut w, k, *rng.pick(&[33u32, 40, 70]), 0) } else { HeldWriter::start(&mut w, k) };
+    if batches {
+        rep.count("directed.two-batches-in-flight");
+    }
     let n2 = rng.range(1, 300);
     w.push_via(k, n2, rng.coin());
     let extra = rng.chance(1, 3).then(|| HeldWriter::start(&mut w, k));
@@ -883,6 +888,94 @@ fn c13_update_config(rng: &mut Rng, id: String, rep: &mut Report) {
     w.shutdown();
 }
 
+/// the ticking thread reacts to a notification with `tick(0)` while the worker is still inside the notify callback (the
+/// only code between the worker's look at the notification flag and the end of its decision): if that tick reports
+/// `running`, another notification has to follow
+fn c13_tick_inside_notify(rng: &mut Rng, id: String, rep: &mut Report) {
+    reset_ctl(true);
+    let armed = Arc::new(AtomicBool::new(false));
+    let inside = Arc::new(AtomicBool::new(false));
+    let tick_done = Arc::new(AtomicBool::new(false));
+    let (a2, i2, t2) = (armed.clone(), inside.clone(), tick_done.clone());
+    let notify: Arc<dyn Fn() + Sync + Send> = Arc::new(move || {
+        record_event(EvKind::Notify);
+        if a2.swap(false, Ordering::SeqCst) {
+            i2.store(true, Ordering::SeqCst);
+            let deadline = Instant::now() + Duration::from_millis(150);
+            while !t2.load(Ordering::SeqCst) && Instant::now() < deadline {
+                std::thread::sleep(Duration::from_micros(200));
+            }
+        }
+    });
+    let threads = *rng.pick(&[1usize, 2, 4]);
+    let mut w = World::new(id.clone(), rng, threads, 1, Some(notify));
+    let empty = rng.coin();
+    if !empty {
+        w.edit(0, "o");
+    }
+    let k = w.new_injector();
+    let n = rng.range(3, 300);
+    let first = w.alloc_ids(n as u32);
+    inject(&w.handles[k].inj, &w.reg, 0, first, n, true, &w.invoked, &w.completed);
+    if rng.coin() {
+        let mut g = 0;
+        while w.n().tick(50).running && g < 100 {
+            g += 1;
+        }
+        let more = rng.range(1, 50);
+        let first = w.alloc_ids(more as u32);
+        inject(&w.handles[k].inj, &w.reg, 0, first, more, rng.coin(), &w.invoked, &w.completed);
+    }
+    wait_no_run_pending(2000);
+    // hold the run at its entry so that the first tick certainly leaves it behind (and arms the notification)
+    pause_at(Point::RunEntry);
+    armed.store(true, Ordering::SeqCst);
+    let st0 = w.n().tick(0);
+    if !wait_paused(0, 1500) {
+        cancel_pause(0);
+    }
+    release(0);
+    // the run ends and calls notify; wait until the worker sits inside the callback
+    let deadline = Instant::now() + Duration::from_secs(3);
+    while !inside.load(Ordering::SeqCst) && Instant::now() < deadline {
+        std::thread::sleep(Duration::from_micros(200));
+    }
+    let was_inside = inside.load(Ordering::SeqCst);
+    let begin = record_event(EvKind::TickBegin);
+    let st = w.n().tick(0);
+    record_event(EvKind::TickEnd { changed: st.changed, running: st.running });
+    tick_done.store(true, Ordering::SeqCst);
+    rep.count(&format!("c13.tick-inside-notify.first-running={}.inside={was_inside}.running={}", st0.running, st.running));
+    let ok = wait_no_run_pending(3000) || w.runs_finished_barrier(3000);
+    std::thread::sleep(Duration::from_millis(2));
+    if !ok {
+        rep.count("c13.runs-still-pending(inconclusive)");
+    } else if was_inside {
+        rep.count("c13.schedules-judged");
+        rep.count("c13.ticks-issued-inside-the-notify-callback");
+        let events = with_ctl(|c| c.events.clone());
+        let notified_after = events.iter().any(|(s, k)| *k == EvKind::Notify && *s > begin);
+        if st.running && !notified_after {
+            let tail: Vec<J> = events.iter().rev().take(30).rev().map(|(s, k)| J::Str(format!("{s}: {k:?}"))).collect();
+            rep.violation(
+                "C13",
+                "lost-wake-up",
+                format!("tick issued while the worker was inside the notify callback, empty_pattern={empty}"),
+                jobj! {"problem" => "the tick that reacted to the notification returned running=true (the worker still held its lock inside notify), every run has returned and no further notify followed",
+                       "case_id" => id, "events_tail" => J::Arr(tail)},
+            );
+        }
+    }
+    while !w.handles.is_empty() {
+        w.drop_injector(0);
+    }
+    let mut g = 0;
+    while w.n().tick(50).running && g < 100 {
+        g += 1;
+    }
+    w.shutdown();
+}
+
 /// every push / extend calls notify after the new items are visible
 fn c13_injector_clause(rng: &mut Rng, id: String, rep: &mut Report) {
     thread_local! {
@@ -1108,8 +1201,9 @@ pub fn run_c13(opts: &Opts, rep: &mut Report) {
                 let empty = (idx % 20) >= 9;
                 c13_schedule(order, empty, &mut rng, id, rep);
             }
-            18 if (idx / 20) % 3 == 0 => c13_injector_clause(&mut rng, id, rep),
-            18 if (idx / 20) % 3 == 1 => c13_update_config(&mut rng, id, rep),
+            18 if (idx / 20) % 4 == 0 => c13_injector_clause(&mut rng, id, rep),
+            18 if (idx / 20) % 4 == 1 => c13_update_config(&mut rng, id, rep),
+            18 if (idx / 20) % 4 == 2 => c13_tick_inside_notify(&mut rng, id, rep),
             18 => c13_same_count(&mut rng, id, rep),
             _ => {
                 set_delays(true);
@@ -1120,7 +1214,7 @@ pub fn run_c13(opts: &Opts, rep: &mut Report) {
         rep.count("histories");
         rep.distinct(mix(&[opts.seed, opts.shard, idx]));
         if rep.want_sample() && idx % 7 == 0 {
-            rep.sample(jobj! {"kind" => if idx % 20 < 18 { format!("directed ordering [{}] empty_pattern={}", ORDERINGS[((idx / 20 * 18 + idx % 20) % 11) as usize], (idx % 20) >= 9) } else if idx % 20 == 18 { ["injector clause", "update_config while a run is held", "same match count"][((idx / 20) % 3) as usize].to_string() } else { "event loop with delays".to_string() }});
+            rep.sample(jobj! {"kind" => if idx % 20 < 18 { format!("directed ordering [{}] empty_pattern={}", ORDERINGS[((idx / 20 * 18 + idx % 20) % 11) as usize], (idx % 20) >= 9) } else if idx % 20 == 18 { ["injector clause", "update_config while a run is held", "tick inside the notify callback", "same match count"][((idx / 20) % 4) as usize].to_string() } else { "event loop with delays".to_string() }});
         }
         let timeouts = with_ctl(|c| std::mem::take(&mut c.pause_timeouts));
         rep.add("pause-timeouts", timeouts);
